@@ -16,6 +16,7 @@ import os
 import sys
 
 VERIF = os.path.dirname(os.path.dirname(os.path.abspath(__file__)))
+OUT = os.environ.get("VERIF_OUT_DIR", VERIF)  # evidence/ and replays/ go here (mutant runs redirect it)
 
 if os.environ.get("PYTHONHASHSEED") is None:
     # one fixed hash seed by default; the determinism self-test varies it
@@ -200,7 +201,7 @@ def run_check(prop, tier, budget_s, workers):
     if harness:
         h = harness[0]
         where = f"seed={h.get('seed')} idx={h.get('idx')}" if h["kind"] == "seeded" else f"sweep={h.get('tag')}"
-        os.makedirs(os.path.join(VERIF, "replays"), exist_ok=True)
+        os.makedirs(os.path.join(OUT, "replays"), exist_ok=True)
         harness_error(f"{h['harness'][0]} property={prop} {where}\n{h['harness'][1]}")
 
     # -- findings -> classes
@@ -212,7 +213,7 @@ def run_check(prop, tier, budget_s, workers):
 
     violations = []
     known_hits = {}
-    os.makedirs(os.path.join(VERIF, "replays"), exist_ok=True)
+    os.makedirs(os.path.join(OUT, "replays"), exist_ok=True)
     for key, lst in sorted(classes.items()):
         unknown = [(o, f) for o, f in lst if match_known(f, known) is None]
         for o, f in lst:
@@ -255,7 +256,7 @@ def _report_violation(prop, key, seed, case, f, known):
         # minimisation walked into a listed finding: report the unminimised case instead
         small, f2 = case, f
     slug = re.sub(r"[^A-Za-z0-9]+", "-", oracle).strip("-")[:60]
-    path = os.path.join(VERIF, "replays", f"{prop}-{slug}-{seed}.json")
+    path = os.path.join(OUT, "replays", f"{prop}-{slug}-{seed}.json")
     write_replay(path, prop, seed, small, f2, {"original_ops": len(case["ops"]), "shrink_execs": used})
     env = dict(os.environ)
     p = subprocess.run([sys.executable, os.path.abspath(__file__), "--replay", path], capture_output=True, text=True, env=env, timeout=600)
@@ -368,8 +369,8 @@ def _write_evidence(prop, tier, root_seed, P, results, det, violations, known_hi
         "wall_s": round(wall, 2),
         "violations": len([v for v in violations if v]),
     }
-    os.makedirs(os.path.join(VERIF, "evidence"), exist_ok=True)
-    with open(os.path.join(VERIF, "evidence", f"{prop}.json"), "w") as f:
+    os.makedirs(os.path.join(OUT, "evidence"), exist_ok=True)
+    with open(os.path.join(OUT, "evidence", f"{prop}.json"), "w") as f:
         json.dump(doc, f, indent=1, sort_keys=True)
 
 
